@@ -132,6 +132,8 @@ def main():
     axioms = {}
     checker_cmds = []
 
+    vlib.prepare_lean()
+
     # 1. implementation
     try:
         vlib.build_repo(flavour)
